@@ -18,7 +18,7 @@ from mdsa.cfg import CFG, walk_local
 from mdsa import match as MM
 from mdsa.loader import AnalysisError, NoFold
 
-from .sem import F
+from .sem import F, Not
 from .common import Ctx, local_defs, node_of, slice_roots
 from .wrapmodel import NODE_CLASSES, W, factory_call_info, factory_uses, getattr_raw_call, guard_aware_cfg, is_raw_expr
 
@@ -619,8 +619,8 @@ def r6_membership(P, rep, ctx):
                 return "False"
             if d.get(ABS) is False or d.get(ROOT) is True:
                 # a relative name / a name asked of the root is never delegated to the root wrapper (infinite regress for the
-                # root, wrong group for a relative name): one of the segment-wise answers
-                return (f"{SEGS}[0] in self.keys()", f"'/'.join({SEGS}[1:]) in self.get({SEGS}[0])", "False")
+                # root, wrong group for a relative name), however the segment-wise part is spelled
+                return Not(f"{nm} in self['/']")
         return None
 
     try:
